@@ -9,7 +9,7 @@ ID = "C11"
 MODULE = "HttpcoreModel.Props.C11"
 THEOREMS = [f"Httpcore.C11.{n}" for n in ("merge", "merge_override_survives", "merge_default_survives_iff", "merge_members", "connect_request",
                                            "connect_accepted_iff", "forward_request", "secrets_stay_outside", "socks_messages",
-                                           "socks_connect_domain", "merge_is_the_modelled_function")]
+                                           "socks_connect_domain", "merge_is_the_modelled_function", "proxy_requests_are_their_own")]
 TRUSTED = [
     "Lean 4.33 kernel; axioms per theorem under coverage.theorems",
     "hand-written Establish model (CONNECT request, forwarded request, SOCKS5 message layouts of socksio) + H1Write, tied byte for byte by this run",
